@@ -4,6 +4,10 @@
     user-supplied segments explicit:
       site 1  p.Meta.(meta.HasDefinitions)   - a step below a leaf, leaf-list or choice
       site 2  seg.Meta.( *meta.List)          - a key on a segment that is not a list
+    and the count test of commit 110eb81: a list segment with fewer key values than the list has keys is
+    an error (more values than keys are ignored by NewValuesByString).  Nodes that hold no definitions
+    besides leaf / leaf-list / choice - anydata, anyxml, rpc and action - are [SkLeaf] entries of the
+    skeleton (terminal for site 1; they are never key leaves).
     ([old = true] is the code before commits d2f10c0 / 249fcce, where both panic).
     An ident containing '/' after unescaping (%2F) is "not found" since commit 7b2b71b (before, meta.Find
     navigated it as a schema path and the segment resolved to a node that is no child of its parent).
@@ -191,6 +195,10 @@ Definition step (old : bool) (modname : ident) (is_root : bool) (cur : nref) (se
                     | Some _ =>
                         match tgt with
                         | NSk (SkList _ _ _ kpos kids) =>
+                            (* 110eb81: fewer key values than the list has keys is a bad request; before,
+                               NewValuesByString left the missing values nil and the node was handed them *)
+                            if negb old && (length keys <? length kpos)%nat then SStop MErr
+                            else
                             match conv_keys (key_types kpos kids) keys with
                             | KOk => SNext tgt
                             | KErr => SStop MErr
